@@ -47,7 +47,7 @@ SITES = {
     "actor/unbounded_mailbox.go:UnboundedMailbox.IsEmpty": ["Load:head", "Load:next"],
     "actor/dispatcher.go:dispatcher.schedule": ["Call:schedule"],
     "actor/worker.go:worker.reschedule": ["Call:reschedule"],
-    "actor/pid.go:restartSubtree": ["Add:restartCount"],
+    "actor/pid.go:restartSubtree": ["Load:restartCount", "Store:restartCount"],
 }
 TIMEOUT = 900
 
